@@ -600,9 +600,7 @@ func upperBound(idx ssa.Value, b *ssa.BasicBlock) (int64, bool) {
 			base, add = bo.X, ci(k)
 		}
 	}
-	if cv, ok := base.(*ssa.Convert); ok {
-		_ = cv
-	}
+	base = stripWidening(base)
 	best, found := int64(0), false
 	for _, g := range guardsAt(b) {
 		bo, ok := g.Cond.(*ssa.BinOp)
@@ -610,7 +608,7 @@ func upperBound(idx ssa.Value, b *ssa.BasicBlock) (int64, bool) {
 			continue
 		}
 		k, isK := bo.Y.(*ssa.Const)
-		if !isK || bo.X != base {
+		if !isK || stripWidening(bo.X) != base {
 			continue
 		}
 		var max int64
@@ -632,4 +630,53 @@ func upperBound(idx ssa.Value, b *ssa.BasicBlock) (int64, bool) {
 		}
 	}
 	return best, found
+}
+
+// stripWidening removes value-preserving integer conversions (byte → int, int32 → int64, …): a guard on
+// int(v) bounds v.
+func stripWidening(v ssa.Value) ssa.Value {
+	for {
+		cv, ok := v.(*ssa.Convert)
+		if !ok {
+			return v
+		}
+		from, okF := cv.X.Type().Underlying().(*types.Basic)
+		to, okT := cv.Type().Underlying().(*types.Basic)
+		if !okF || !okT || from.Info()&types.IsInteger == 0 || to.Info()&types.IsInteger == 0 {
+			return v
+		}
+		size := func(b *types.Basic) int {
+			switch b.Kind() {
+			case types.Int8, types.Uint8:
+				return 8
+			case types.Int16, types.Uint16:
+				return 16
+			case types.Int32, types.Uint32:
+				return 32
+			case types.Int64, types.Uint64:
+				return 64
+			case types.Int, types.Uint, types.Uintptr:
+				return 32 // the narrower of the two word sizes analysed
+			}
+			return 0
+		}
+		fs, ts := size(from), size(to)
+		if to.Kind() == types.Int || to.Kind() == types.Uint {
+			ts = 32
+		}
+		if from.Kind() == types.Int || from.Kind() == types.Uint {
+			fs = 64 // the wider of the two word sizes
+		}
+		fromU, toU := from.Info()&types.IsUnsigned != 0, to.Info()&types.IsUnsigned != 0
+		switch {
+		case fs == 0 || ts == 0:
+			return v
+		case fromU == toU && fs <= ts, fromU && !toU && fs < ts:
+			v = cv.X
+		case from.Kind() == to.Kind():
+			v = cv.X
+		default:
+			return v
+		}
+	}
 }
